@@ -260,3 +260,13 @@ func VerifDir() string {
 	}
 	return "/verif"
 }
+
+// OutDir is where evidence and replay files are written (VERIF_OUT overrides
+// it for self-validation runs against scratch copies, so that the committed
+// evidence is only ever written by runs against the real tree).
+func OutDir() string {
+	if d := os.Getenv("VERIF_OUT"); d != "" {
+		return d
+	}
+	return VerifDir()
+}
